@@ -200,7 +200,8 @@ func findVanish(c *census, d *daemonInfo, evs []ev, pr *probe) {
 			break
 		}
 	}
-	if d.Vanish < 0 && d.Stop < 0 && pr.Incomplete == "" && pr.Alive[d.Pid] && pr.SockIno != d.Ino {
+	// final probe: only for a daemon whose listen was in the log before the probe was taken
+	if d.Vanish < 0 && d.Stop < 0 && pr.Incomplete == "" && d.Listen < pr.ProbeAt && pr.Alive[d.Pid] && pr.SockIno != d.Ino {
 		d.Vanish, d.NowIno = len(evs), pr.SockIno
 	}
 	if d.Vanish < 0 {
@@ -288,7 +289,7 @@ func judge(s *scen, evs []ev, pr *probe) ([]finding, *census) {
 				continue
 			}
 			// a listened first; it must have decided to stop before b's listen succeeded
-			stillServing := a.Stop > b.Listen || (a.Stop < 0 && pr.Alive[a.Pid])
+			stillServing := a.Stop > b.Listen || (a.Stop < 0 && a.Listen < pr.ProbeAt && pr.Alive[a.Pid])
 			if stillServing {
 				// (whether the second one also gets the database only depends on
 				// when the first one lets go of the bbolt lock)
